@@ -87,6 +87,7 @@ def unpaired(ctx, m):
                            T.mk('fadd', T.mk('fdiv', T.mk('fmul', A, A), T.mk('fadd', na, one)), T.mk('fdiv', T.mk('fmul', B, B), T.mk('fadd', nb, one)))), T.fconst(2))
     se_wit = [T.mk('fge', SE, T.fconst(0)), T.mk('feq', T.mk('fmul', SE, SE), T.mk('fadd', A, B)), T.mk('fgt', T.mk('fadd', A, B), T.fconst(0)), T.mk('fge', VA, T.fconst(0)), T.mk('fge', VB, T.fconst(0))]
     seen = set()
+    seen_all = []
     var_done = False
     for r in res:
         if r.kind == 'stuck':
@@ -105,9 +106,13 @@ def unpaired(ctx, m):
         k = E.pc_kind(r.pc)
         uses_t = any(apps_in(b, 'Tq') for b in bounds)
         tag = '%s:%s' % (KNAME[k] if k is not None else '?', 'T' if uses_t else 'Z')
-        if (k, uses_t) in seen:
+        from props.common_m import oracle_guard
+        if not oracle_guard(ctx, m, 'C04:unpaired', r.pc, bounds):
             continue
+        if (k, uses_t) in seen:
+            tag += ':path%d' % sum(1 for x in seen_all if x == (k, uses_t))
         seen.add((k, uses_t))
+        seen_all.append((k, uses_t))
         if k is None or variant != VARIANT[k]:
             m.violated_structurally('C04:unpaired:shape:' + tag, 'C04:unpaired:shape', 'confidence kind %s yields interval variant %s' % (k, variant))
             continue
